@@ -667,6 +667,11 @@ def check(ctx: Ctx):
         except (Undecided, AnchorMissing) as e:
             ctx.undecided(rule, None, None, f"{rule}:{fn.__name__}", f"{type(e).__name__}: {e}")
     _run_rule(ctx, "check_single_instance", c02.check_single_instance)  # per-instance crop: one crop from both masks (R02.5)
+    # zero padding adds background and nothing else: the pair's label tuples / instance counts are the
+    # non-zero values present, whether or not the map has background (R09.6)
+    from .labelenum import check_label_enumeration as _cle
+
+    c03._guarded(ctx, "R09.6", _cle)
     # R10.4 delegated geometry-sensitive configuration
     _run_rule(ctx, "check_no_wraparound", c07.check_no_wraparound)
     try:
